@@ -92,7 +92,14 @@ def run(ctx):
                'the Array branch of the chunk generator handles a source of length 0 (its sequence sibling does, and '
                'iterchunks rejects startindex >= endindex)',
                detail='copying an Array whose first axis has length 0 raises ValueError')
-    seq_empty = empty_ok(SEQ, lambda n: dotted(n.func) in ('fit_frames', 'utils.fit_frames'))
+    ff_ = ctx.repo.func('utils.fit_frames')
+
+    def _frame_machinery(n):
+        if dotted(n.func) in ('fit_frames', 'utils.fit_frames'):
+            return True
+        # a frame generator of the package that itself obtains its counts from fit_frames
+        return any(k == 'repo' and any(c2 is ff_ for _, c2 in ctx.E.callees(t)) for k, t in ctx.R.resolve_call(n, gen))
+    seq_empty = empty_ok(SEQ, _frame_machinery)
     ctx.decide(seq_empty, 'R-BELIEF', 'D3', gen, None, 'empty-sequence-source', 'the sequence branch handles length 0', detail='missing')
     # D2
     g = RA.methods['copy']
